@@ -615,8 +615,15 @@ func (fc *funcContext) typeOf(expr ast.Expr) types.Type {
 	typ := fc.pkgCtx.TypeOf(expr)
 	// If the expression is referring to an instance of a generic type or function,
 	// we want the instantiated type.
-	if ident, ok := expr.(*ast.Ident); ok {
-		if inst, ok := fc.pkgCtx.Instances[ident]; ok {
+	switch e := expr.(type) {
+	case *ast.Ident:
+		if inst, ok := fc.pkgCtx.Instances[e]; ok {
+			typ = inst.Type
+		}
+	case *ast.SelectorExpr:
+		// A qualified identifier (pkg.Func) records its instance under the
+		// selected identifier.
+		if inst, ok := fc.pkgCtx.Instances[e.Sel]; ok {
 			typ = inst.Type
 		}
 	}
